@@ -21,7 +21,8 @@ RULE = ("cases: CouplingMarkovChain(StepModel in 4 representations x variation f
         "simulated; copula coupling: __coupling_state for every fine increment of 2-d grids on density-table Levy copulas (exact) at "
         "uniforms around each cumulative corner probability.  oracle: brute-force sum_fine rate*P(fine->y) vs the rate of the chain "
         "built on the un-refined grid (1-d step models exact-ish 1e-12; 2-d table copulas and Clayton x real margins).  "
-        "non-trivial = distinct (chain, level, increment) with an odd increment")
+        "real stream: HEM/Merton/VG/CGMY on probability-step, geometric, with-bounds and uniform grids, levels 1-3, same brute-force "
+        "oracle incl. the mass coupled to 0 (1e-8 of the intensity).  non-trivial = distinct (chain, level, increment) with an odd increment")
 MODELLED = ["CouplingSimulation.probability_to_right_jump / coupling_state / coupling_states_for_a_slice, next_level bookkeeping, "
             "simulate_diffusion_with_coupling (hand model Model/Coupling1d.v, exact correspondence)",
             "CouplingLevyCopulaSimulation.__coupling_state in dimension 2 (Model/CouplingNd.v, exact correspondence on density tables); "
@@ -110,8 +111,10 @@ def coupling_state_impl(c, inc, u):
             return None
 
 
-def oracle_level_1d(viol, c, q_coarse, axis_coarse, o_coarse, ctx):
-    """brute-force telescoping + copy/adjacent on the implementation's outputs at the current (refined) level"""
+def oracle_level_1d(viol, c, q_coarse, axis_coarse, o_coarse, ctx, tol=Fr(1, 10 ** 12), central_coarse=None):
+    """brute-force telescoping + copy/adjacent on the implementation's outputs at the current (refined) level;
+    central_coarse = (h_left, h_right) of the un-refined grid (its own grid.middle, taken before refine): the mass coupled
+    to a coarse increment 0 must be the mass of that old central cell outside the new one"""
     from rpylib.distribution.samplingfactory import create_q_vector
     grid = c.grid
     axis = [Fr(float(x)) for x in grid.axes[0]]
@@ -149,11 +152,21 @@ def oracle_level_1d(viol, c, q_coarse, axis_coarse, o_coarse, ctx):
             return
         inflow[(p + 1) // 2] += qf[p] * Fr(pr)
         inflow[(p - 1) // 2] += qf[p] * (1 - Fr(pr))
+    scale = 1 + sum(Fr(float(x)) for x in q_coarse)
+    if central_coarse is not None:
+        mass = c.fine_process.model.mass
+        hl_new = float(grid.middle(float(grid.axes[0][o - 1]), 0.0))
+        hr_new = float(grid.middle(0.0, float(grid.axes[0][o + 1])))
+        want0 = Fr(float(mass(central_coarse[0], hl_new))) + Fr(float(mass(hr_new, central_coarse[1])))
+        if abs(inflow[o_coarse] - want0) > tol * scale:
+            viol("fine mass coupled to a coarse increment 0 is not the old central cell minus the new one",
+                 got=float(inflow[o_coarse]), want=float(want0), **ctx)
+            return
     for j, want in enumerate(q_coarse):
         if j == o_coarse:
             continue
         want = Fr(float(want))
-        if abs(inflow[j] - want) > Fr(1, 10 ** 12) * (1 + want):
+        if abs(inflow[j] - want) > tol * (scale if central_coarse is not None else 1 + want):
             viol("sum over fine states of rate x P(coupled to y) differs from the previous level's rate of y", coarse_state=j,
                  got=float(inflow[j]), want=float(want), **ctx)
             return
@@ -166,6 +179,7 @@ def correspond(res):
         res.violation(what, dict(kw))
     groups = []
     _one_d(res, rng, viol, groups)
+    _real_grids(res, rng, viol)
     _samplers(res, rng, viol)
     _n_d(res, rng, viol, groups)
     header = ("From Coq Require Import ZArith QArith Qabs List Bool.\nFrom RV Require Import Base.QB Model.Grid Gen.GenC01Trunc Gen.GenC04Triplet "
@@ -306,6 +320,62 @@ def _samplers(res, rng, viol):
             fid = "F-C02-4" if isinstance(e, OverflowError) else "F-C02-5" if "truth value" in str(e) else None
             viol(f"coupled simulation with SamplingMethod.{method} raises {type(e).__name__}", kind="sampler", method=method,
                  reason=str(e)[:160], **({"finding": fid} if fid else {}))
+
+
+# ------------------------------------------------------------------------------------------ real models on every grid constructor
+def build_real_grid(gname, model, params):
+    from rpylib.grid.spatial import CTMCUniformGrid, CTMCGridGeometric, CTMCGridProbabilityStep
+    if gname == "probstep":
+        return CTMCGridProbabilityStep(h=params["h"], model=model, minimum_probability_step=params["p"])
+    if gname == "geometric":
+        return CTMCGridGeometric(h=params["h"], model=model, nb_of_points_on_each_side=params["nb"])
+    if gname == "bounds":
+        return CTMCGridGeometric.create_with_bounds(h=params["h"], truncations=tuple(params["truncations"]), dimension=1,
+                                                    nb_of_points_on_each_side=params["nb"])
+    return CTMCUniformGrid(h=params["h"], model=model)
+
+
+def run_real_levels(viol, spec, gname, params, levels, ctx):
+    """brute-force telescoping oracle at levels 1..levels on a real model and a grid built by its public constructor"""
+    from rpylib.distribution.samplingfactory import create_q_vector
+    from stepmeasure import build_model
+    model = build_model(spec)
+    with warnings.catch_warnings():
+        warnings.simplefilter("ignore")
+        grid = build_real_grid(gname, model, params)
+        c, pms, product = build_coupling_1d(model, grid)
+        for level in range(1, levels + 1):
+            g = c.grid
+            o = g.origin_coordinate.value
+            axis_coarse = g.axes[0].copy()
+            central = (float(g.middle(float(axis_coarse[o - 1]), 0.0)), float(g.middle(0.0, float(axis_coarse[o + 1]))))
+            q_coarse = create_q_vector(c.fine_process.model.levy_triplet.nu, g).copy()
+            c.next_level(mc_paths=2, path_managers=pms, product=product)
+            oracle_level_1d(viol, c, q_coarse, axis_coarse, o, dict(ctx, level=level), tol=Fr(1, 10 ** 8), central_coarse=central)
+    return c
+
+
+def _real_grids(res, rng, viol):
+    from stepmeasure import real_model_specs
+    thorough = res.tier == "thorough"
+    specs = real_model_specs(rng)          # HEM, MERTON, VG, CGMY (finite var.), CGMY (infinite var.)
+    plan = [(0, "probstep", {"h": 0.05, "p": 0.1}, 3), (1, "geometric", {"h": 0.02, "nb": rng.randrange(3, 8)}, 3),
+            (2, "uniform", {"h": 0.05}, 2), (3, "bounds", {"h": 0.02, "truncations": [-rng.uniform(0.4, 1.2), rng.uniform(0.4, 1.2)], "nb": rng.randrange(3, 8)}, 3),
+            (4, "geometric", {"h": 0.05, "nb": rng.randrange(3, 7)}, 2), (1, "probstep", {"h": 0.05, "p": 0.2}, 2)]
+    if thorough:
+        plan += [(k, g, dict(p), 3) for k in range(5) for g, p in (("uniform", {"h": 0.05}), ("geometric", {"h": 0.02, "nb": 6}),
+                                                                   ("bounds", {"h": 0.02, "truncations": [-0.8, 0.9], "nb": 5}))]
+        plan += [(k, "probstep", {"h": 0.05, "p": 0.1}, 3) for k in (1, 2)]
+    for k, gname, params, levels in plan:
+        spec = specs[k]
+        ctx = dict(kind="1d-real", model=spec, grid=gname, params=params, levels=levels)
+        res.count(("1d-real", spec["family"], gname, json.dumps(params, sort_keys=True), levels), kind=f"telescoping oracle {spec['family']} on {gname}")
+        try:
+            run_real_levels(viol, spec, gname, params, levels, ctx)
+        except ValueError as e:
+            res.bump("real_grid_ValueError", f"{spec['family']}/{gname}: {str(e)[:60]}")
+        except Exception as e:  # noqa
+            viol(f"coupling on a real grid raises {type(e).__name__}", reason=str(e)[:200], **ctx)
 
 
 # ------------------------------------------------------------------------------------------ copula coupling (dimension 2)
@@ -519,6 +589,8 @@ def replay(path):
                 q_coarse = create_q_vector(c.fine_process.model.levy_triplet.nu, c.grid).copy()
                 c.next_level(mc_paths=2, path_managers=pms, product=product)
                 oracle_level_1d(viol, c, q_coarse, axis_coarse, o_coarse, {})
+        elif k == "1d-real":
+            run_real_levels(viol, data["model"], data["grid"], data["params"], data["levels"], {})
         elif k == "sampler":
             _samplers(type("R", (), {"count": lambda *a, **kw: None, "seed": 1})(), random.Random(0),
                       lambda what, **kw: out.append((what, kw.get("method"))) if kw.get("method") == data["method"] else None)
